@@ -2226,7 +2226,7 @@ def c06(idx: Index, rep: Report, tier: str) -> None:
             ok = bool(exprs) and all(any(isinstance(x, ast.Call) and call_name(x) == "Not" and x.args and norm(x.args[0]) in origs for x in ast.walk(e)) for e in exprs)
             rep.check(ok, rule, "the effect on the negation fluent assigns Not(<value of the original effect>)", f.loc(c), construct=f"{norm(c.args[0])[:50]} := {norm(exprs[0])[:70] if exprs else norm(val)}", detail="" if ok else "the mirrored value is not the negation of the effect's value expression: for a non-constant value (`f := g`) the fluent and its negation fluent can both be true after the action, and the compiled problem accepts plans whose `not f` conditions are false in the original", function=f.qualname)
     rep.count("mirrored_effects", n)
-    rep.require_min(rule, "mirrored_effects", 3)
+    rep.require_min(rule, "mirrored_effects", 2)
 
 
 # ------------------------------------------------------------------------------------ C10
@@ -2623,8 +2623,22 @@ def c13(idx: Index, rep: Report, tier: str) -> None:
     rule = "C13.5 T1 capture-avoidance-consults-the-inserted-values"
     pw = idx.func("model.walkers.substituter.Substituter._push_with_children_to_stack")
     entry_q = pw.qualname
+    class _CompLoop:
+        """a `{k: v for k, v in m.items() if …}` clause seen as the loop it stands for"""
+
+        def __init__(self, comp, gen):
+            self.target, self.iter, self.body = gen.target, gen.iter, [ast.Expr(value=t) for t in gen.ifs]
+            self.lineno, self.col_offset = comp.lineno, comp.col_offset
+            self.end_lineno, self.end_col_offset = getattr(comp, "end_lineno", comp.lineno), getattr(comp, "end_col_offset", 0)
+
     def _map_loops(fn):
-        return [l for l in walk_no_nested(fn.node) if isinstance(l, ast.For) and isinstance(l.target, ast.Tuple) and len(l.target.elts) == 2 and isinstance(l.iter, ast.Call) and call_name(l.iter) == "items"]
+        out = [l for l in walk_no_nested(fn.node) if isinstance(l, ast.For) and isinstance(l.target, ast.Tuple) and len(l.target.elts) == 2 and isinstance(l.iter, ast.Call) and call_name(l.iter) == "items"]
+        for c in walk_no_nested(fn.node):
+            if isinstance(c, (ast.DictComp, ast.ListComp, ast.GeneratorExp)):
+                for g in c.generators:
+                    if isinstance(g.target, ast.Tuple) and len(g.target.elts) == 2 and isinstance(g.iter, ast.Call) and call_name(g.iter) == "items" and g.ifs:
+                        out.append(_CompLoop(c, g))
+        return out
 
     loops = _map_loops(pw)
     if not loops:
